@@ -63,6 +63,9 @@ BUILT = {
  "C20": dict(tech=TV + ": the same calls recorded from a dev and from a release build, joined and compared by TLC (TraceLib.tla, TotalFails)",
    text="Every driver of the framework (model queries, step iterators, cost models, request bounds, supplies, fixed-point search, the nine + six analyses, derived curves, extrapolation, cache histories; ~93000 calls in the quick tier) plus a corner-case driver (Never, empty interference, zero blocking, limit 1, D<C, subchain = whole workload, budget = period, step-less search spaces) is executed twice on identical seeded inputs: by a harness built with debug assertions and overflow checks (the library's own brute-force cross-checks are active) and by a release build. The two traces are joined call by call; TLC accepts a call iff both builds returned (a panic or a hang is not a behaviour of the specification) and returned the same value.",
    note="Hang = no return within the watchdog (20 s, corner driver 6 s). Known findings F9/F9b/F3c (consequences of the pinned ArrivalCurvePrefix step 0) are listed; F8, F10, F13, F14 were repaired by fix: commits."),
+ "C15": dict(level="other", tech="TLA+ trace validation (TLC) of recorded quantiles against an integer interval-arithmetic enclosure of the Poisson quantile (Poisson.tla)",
+   text="number_arrivals is recorded for rates {1/4,1/2,1,2} x epsilon {1/10,1/20,1/100,1/1000} x interval lengths up to mean 1000 (thorough 2000), arrival_probability for small means; Poisson.tla encloses the Poisson weights by integer recurrences with outward rounding and derives an interval that provably contains the (1-epsilon)-quantile; TLC accepts iff each call returned, the value lies in the interval, is 0 at 0 and monotone, and the recorded mass function satisfies the Poisson recurrence and sums to one. Reduced strength: reals are not available in TLA+/TLC, the enclosure is 1-3 values wide and cannot resolve epsilons far below 10^-3.",
+   note="Watchdog 20 s per call for termination. The defect F2 (wrong values from mean ~130, non-termination from mean ~745) was found by this check and repaired."),
 }
 m = {"version": 1, "setup_cmd": "bin/vf setup",
      "hooks": {"guard": "--cfg rta_verif",
